@@ -629,7 +629,7 @@ where
             }
         };
 
-    for mut msg in inflow {
+    'inflow: for mut msg in inflow {
         /* if msg.ecu == DltChar4::from_str("ECU").unwrap() && msg.timestamp_dms > 0 {
             println!(
                 "got msg:{} {:?}:{:?} {} {}",
@@ -791,7 +791,7 @@ where
                                 "parse_lifecycles_buffered_from_stream .send 4 got err={}",
                                 e
                             );
-                            break; // exit. the receiver has stopped
+                            break 'inflow; // exit. the receiver has stopped
                         }
                     }
                 }
@@ -880,7 +880,7 @@ where
                                         let msg = buffered_msgs.pop_front().unwrap(); // .remove(0);
                                         if let Err(e) = outflow(msg) {
                                             println!("parse_lifecycles_buffered_from_stream .send 1 got err={}", e);
-                                            break; // exit. the receiver has stopped
+                                            break 'inflow; // exit. the receiver has stopped
                                         }
                                     } else if !buffered_lcs.contains(&msg_lc) {
                                         prune_lc_id = msg_lc;
@@ -894,7 +894,7 @@ where
                                         let msg = buffered_msgs.pop_front().unwrap(); // .remove(0);
                                         if let Err(e) = outflow(msg) {
                                             println!("parse_lifecycles_buffered_from_stream .send 2 got err={}", e);
-                                            break;
+                                            break 'inflow; // exit. the receiver has stopped
                                         }
                                     } else {
                                         break;
